@@ -6,6 +6,13 @@ package dastard
 // startSocket with the real message builders, fed with records built from their projection.
 // No logic of dastard is changed here.
 
+import (
+	"fmt"
+	"time"
+
+	"gonum.org/v1/gonum/mat"
+)
+
 // VerifPub is a running startSocket publisher.
 type VerifPub struct {
 	ch chan []*DataRecord
@@ -41,3 +48,62 @@ func (p *VerifPub) SendBatch(vs []VerifRecord) {
 
 // Close closes the feeding channel; the publisher goroutine then closes its socket.
 func (p *VerifPub) Close() { close(p.ch) }
+
+// VerifPublishThenEncode runs the real DataPublisher.PublishData on records built from vs (one channel's
+// batch) with the chosen file writers active (bit 0: LJH 2.2, bit 1: LJH 3, bit 2: OFF; files go to dir) and
+// both ZMQ channels set to buffered channels owned by this call. Only after PublishData has returned does it
+// take the queued batches and encode them with messageRecords / messageSummaries: the schedule in which the
+// publisher goroutines of startSocket get to the batch after the writers have run (PublishData only queues).
+// With forward non-nil the queued batches are instead handed on to two running startSocket publishers.
+func VerifPublishThenEncode(vs []VerifRecord, writers int, paused bool, dir string, forward [2]*VerifPub) (rec, sum [][][]byte, err error) {
+	if len(vs) == 0 {
+		return nil, nil, nil
+	}
+	recs := make([]*DataRecord, len(vs))
+	for i, v := range vs {
+		recs[i] = verifDataRecord(v)
+	}
+	dp := &DataPublisher{PubRecordsChan: make(chan []*DataRecord, 1), PubSummariesChan: make(chan []*DataRecord, 1)}
+	first := vs[0]
+	if writers&1 != 0 {
+		dp.SetLJH22(first.Chan, first.Pre, len(first.Data), 1, 1e-5, time.Unix(0, 0), 1, 1, 1, 1, 0, 0, 0,
+			fmt.Sprintf("%s/verif_c14_chan%d.ljh", dir, first.Chan), "VerifSource", "chan", first.Chan, Pixel{})
+	}
+	if writers&2 != 0 {
+		dp.SetLJH3(first.Chan, 1e-5, 1, 1, 1, 0, fmt.Sprintf("%s/verif_c14_chan%d.ljh3", dir, first.Chan))
+	}
+	if writers&4 != 0 && len(first.ModelCoefs) > 0 && len(first.Data) > 0 {
+		nb, ns := len(first.ModelCoefs), len(first.Data)
+		dp.SetOFF(first.Chan, first.Pre, ns, 1, 1e-5, time.Unix(0, 0), 1, 1, 1, 1, 0, 0, 0,
+			fmt.Sprintf("%s/verif_c14_chan%d.off", dir, first.Chan), "VerifSource", "chan", first.Chan,
+			mat.NewDense(nb, ns, nil), mat.NewDense(ns, nb, nil), "verif", Pixel{})
+	}
+	dp.WritingPaused = paused
+	err = dp.PublishData(recs)
+	dp.RemoveLJH22()
+	dp.RemoveLJH3()
+	dp.RemoveOFF()
+	select {
+	case batch := <-dp.PubRecordsChan:
+		if forward[0] != nil {
+			forward[0].ch <- batch
+		} else {
+			for _, r := range batch {
+				rec = append(rec, messageRecords(r))
+			}
+		}
+	default:
+	}
+	select {
+	case batch := <-dp.PubSummariesChan:
+		if forward[1] != nil {
+			forward[1].ch <- batch
+		} else {
+			for _, r := range batch {
+				sum = append(sum, messageSummaries(r))
+			}
+		}
+	default:
+	}
+	return rec, sum, err
+}
